@@ -14,7 +14,8 @@ EXTENDS Integers, Sequences, FiniteSets, TLC
 CONSTANTS MaxN
 
 Nil == "nil"
-CallerEch  == {Nil, "Ec"}            \* caller's tls.Config.EncryptedClientHelloConfigList
+CallerEch  == {Nil, "Ec", "Empty"}   \* caller's tls.Config.EncryptedClientHelloConfigList. "Empty": a list that is not nil but has no bytes -
+                                     \* crypto/tls takes any non-nil list as "ECH or nothing", so this is a supplied list too (a caller failing closed)
 CallerSn   == {"", "SNc"}            \* caller's tls.Config.ServerName
 PubNames   == {"", "pn"}             \* Dialer.PublicName
 TargetEch  == {Nil, "E1", "E2"}      \* ech= of the HTTPS record that produced the address
@@ -51,7 +52,8 @@ BaseEch == IF NeedECH /\ pub # "" THEN Boot ELSE cech            \* dial.go:197-
 SnFor(i) == IF csn = "" THEN Host ELSE csn                        \* dial.go:238-240
 EchFor(i) == IF NeedECH /\ tech[i] # Nil THEN tech[i] ELSE BaseEch \* dial.go:241-243
 
-RetryOfI(i, o) == IF o = "rejSame" THEN EchFor(i) ELSE RetryOf(o)      \* the retry configs the server hands out
+\* the retry configs the server hands out (a rejection that comes with zero bytes of retry configs comes with none)
+RetryOfI(i, o) == IF o = "rejSame" THEN (IF EchFor(i) = "Empty" THEN Nil ELSE EchFor(i)) ELSE RetryOf(o)
 
 Refuse(i) ==
   /\ st[i] = "new" /\ req /\ EchFor(i) = Nil                      \* dial.go:244-247
